@@ -32,6 +32,7 @@ from symx import diffz3
 from symx.scalars import _factor_terms, sym
 from symx.array import SymArray
 from .common import symbolic_run, Vals
+from .refs_clauses import Clauses
 
 PROPERTY = "C10"
 BOUNDS = {
@@ -48,7 +49,7 @@ BOUNDS = {
     "thorough": dict(mmasub=dict(n=[2, 3, 4], m=[1, 2], versions=["Svanberg1987", "Svanberg2007"],
                                  histories=["first", "second", "general"], move=["scalar", "per-variable vector"],
                                  asybound=["10.0", "symbolic >= 1"]),
-                     subsolv=dict(n=[1, 2, 3, 4], m=[1, 2, 3], newton_iterations=1, line_search_trials=6, init_n=[1, 2, 3],
+                     subsolv=dict(n=[1, 2, 3], m=[1, 2, 3], newton_iterations=1, line_search_trials=6, init_n=[1, 2, 3],
                                   first_step=[(1, 1, 0), (2, 1, 1), (2, 2, 2), (3, 2, 3), (3, 1, 4)],
                                   note="as quick"),
                      residual=dict(n=[2, 3], m=[1, 2]),
@@ -66,7 +67,8 @@ OUTSIDE = [
     "subsolv's own initialisation (x0 clipping with 1e-10 margins) for beta - alfa <= 2e-10 (the start point is then not interior)",
     "the Newton step with the computed direction on fully symbolic problem data (measured: undecided within the time-out); "
     "the `subsolv-first-*` items run it on exact concrete data only",
-    "n, m and signal layouts beyond the bounds; m = 0 (no constraints)",
+    "n, m and signal layouts beyond the bounds; m = 0 (no constraints); (b) with n = 4 was tried and is not decided by z3 "
+    "within the time-outs (the clauses are index-wise identical to n <= 3)",
     "the additive constant of the objective approximation (rhs[0] is not handed to the sub-solver): only its gradient is checked",
     "verbosity >= 1 printing, fn_callback side effects, complex or non-scalar responses (TypeError paths)",
     "IEEE rounding, overflow, NaN",
@@ -160,93 +162,6 @@ def _arr(a):
 def _flt(a):
     return np.asarray(a, dtype=float)
 
-
-
-class Clauses(list):
-    """Property clauses of one run, usable in both modes: discharged by the Prover on symbolic values, evaluated with
-    tolerances on floats by the replay.  Entries: (label, kind, op, a, b), op in lt / le / eq / true."""
-
-    def lt(self, label, a, b, kind):
-        self.append((label, kind, "lt", a, b))
-
-    def le(self, label, a, b, kind):
-        self.append((label, kind, "le", a, b))
-
-    def eq(self, label, a, b, kind, scale=0.0):
-        """scale: magnitude of the terms that were added up to obtain a, b (floor of the relative tolerance in the replay)."""
-        self.append((label, kind, "eq", a, b, scale))
-
-    def true(self, label, cond, kind):
-        self.append((label, kind, "true", bool(cond), None))
-
-    def arr_eq(self, label, A, B, kind):
-        if A is None or B is None:
-            self.true(label + ".is-array", False, kind)
-            return
-        A, B = np.asarray(A), np.asarray(B)
-        if A.shape != B.shape:
-            self.true(label + ".shape", False, kind)
-            return
-        for i in np.ndindex(*A.shape):
-            self.eq("%s[%s]" % (label, ",".join(map(str, i))), A[i], B[i], kind)
-
-    def discharge(self, P, weak_first_kinds=()):
-        """Hand every clause to the Prover.  Clauses of the kinds in `weak_first_kinds` do not depend on the branch taken:
-        they are first tried WITHOUT the path condition (fewer hypotheses: a proof is a fortiori valid on the path); only
-        if that does not succeed are they decided under the full path condition.  An `unknown` under the full path
-        condition is likewise retried without it.  A `sat` obtained without the path condition is never used."""
-        c = P.c
-
-        def attempt(label, kind, op, a, b):
-            if op == "true":
-                return P.holds(label, a, kind=kind)
-            if op == "eq":
-                return P.eq(label, a, b, kind=kind)
-            return P.holds(label, (a < b) if op == "lt" else (a <= b), kind=kind)
-
-        def weak(label, kind, op, a, b):
-            saved = c.pc
-            c.pc = []
-            try:
-                o = attempt(label, kind, op, a, b)
-            finally:
-                c.pc = saved
-            if isinstance(o, tuple) or o.status != "unsat":
-                for x in (o if isinstance(o, tuple) else (o,)):
-                    P.obls.remove(x)
-                return None
-            o.stage = str(o.stage) + " (without path condition)"
-            return o
-
-        for label, kind, op, a, b in (e[:5] for e in self):
-            if kind in weak_first_kinds and c.pc and weak(label, kind, op, a, b) is not None:
-                continue
-            o = attempt(label, kind, op, a, b)
-            if not isinstance(o, tuple) and o.status == "unknown" and c.pc and kind not in weak_first_kinds:
-                o2 = weak(label, kind, op, a, b)
-                if o2 is not None:
-                    P.obls.remove(o)
-
-    def evaluate(self, label, rtol=1e-9, eqtol=1e-9):
-        """(violated?, detail) for the clause `label` on float values; None if the clause does not exist in this run."""
-        for e in self:
-            lab, kind, op, a, b = e[:5]
-            if lab != label:
-                continue
-            if op == "true":
-                return (not a), dict(clause=lab, value=bool(a))
-            a, b = float(a), float(b)
-            if a != a or b != b:        # NaN never satisfies a clause
-                return True, dict(clause=lab, op=op, lhs=a, rhs=b, note="NaN")
-            sc = max(1.0, abs(a), abs(b))
-            if op == "eq":
-                bad = abs(a - b) > eqtol * max(abs(a), abs(b), float(e[5])) + 1e-13
-            elif op == "le":
-                bad = a > b + rtol * sc
-            else:   # strict: violated when a reaches b (up to rounding)
-                bad = a >= b - rtol * sc
-            return bool(bad), dict(clause=lab, op=op, lhs=a, rhs=b)
-        return None, dict(clause=label, note="clause not produced by the concrete run")
 
 
 class _NeverSmaller:
